@@ -404,6 +404,54 @@ def generate(repo):
                 "Definition x_all_yields_every_value : bool := true.", {})
     out.item('x_add', add_)
 
+    def result_meta():
+        with open(os.path.join(repo, 'searchkit/result.py'),
+                  encoding='utf-8') as fh:
+            rt = ast.parse(fh.read())
+        base = find_def(rt, 'SearchResultBase')
+        consts = {U(n.targets[0]): n.value.value for n in base.body
+                  if isinstance(n, ast.Assign)
+                  and isinstance(n.value, ast.Constant)}
+        need(consts.get('META_OFFSET_TAG') == 0
+             and consts.get('META_OFFSET_SEQ_ID') == 1, "metadata offsets",
+             base)
+        for prop, off in (('tag', 'META_OFFSET_TAG'),
+                          ('sequence_id', 'META_OFFSET_SEQ_ID')):
+            f = find_def(rt, 'SearchResultMinimal.' + prop)
+            need([U(x) for x in real_body(f)] ==
+                 [f'idx = self.metadata[self.{off}]',
+                  'if idx is None:\n    return None',
+                  'return self.results_store.get(idx)'],
+                 f"SearchResultMinimal.{prop}: None iff the metadata slot "
+                 "is None, else the store entry", f)
+        return ("Definition x_result_meta_none_iff_slot_none : bool := true.",
+                {})
+    out.item('x_result_meta', result_meta)
+
+    def task_defs():
+        with open(os.path.join(repo, 'searchkit/task.py'),
+                  encoding='utf-8') as fh:
+            tt = ast.parse(fh.read())
+        sd = find_def(tt, 'SearchTask.search_defs')
+        first = real_body(sd)[0]
+        need(U(first) ==
+             "alldefs = {s_def: True for s_def in self.info['searches']}",
+             "search_defs: dict keyed by the definition", first)
+        need(U(real_body(sd)[-1]) == 'return alldefs', "return alldefs", sd)
+        rs = find_def(tt, 'SearchTask._run_search')
+        lines = one([n for n in rs.body if isinstance(n, ast.For)
+                     and U(n.iter).startswith('enumerate(fd')],
+                    "_run_search: loop over lines", rs)
+        inner = one([n for n in lines.body if isinstance(n, ast.For)],
+                    "per-line loop over definitions", lines)
+        need(U(inner.iter) == 'self.search_defs' and U(inner.target) == 's_def',
+             "the per-line loop does not iterate self.search_defs: "
+             + U(inner.iter), inner)
+        return ("Definition x_task_defs_dict_keyed_by_definition : bool := "
+                "true.\nDefinition x_task_line_loop_over_search_defs : bool "
+                ":= true.", {})
+    out.item('x_task_defs', task_defs)
+
     text = ("(* GENERATED from the repository working tree by "
             "translator/plugins/catalog.py - do not edit *)\n"
             "From Coq Require Import ZArith List Bool.\n"
